@@ -35,6 +35,7 @@ func runC01(p *core.Prog, r *core.Report) {
 	r.Floor("R01.3", 3)
 	r.Floor("R01.4", 5)
 	aliasedInPlaceUpdates(c, "RA.1", "ecdsa/signing", "common")
+	globalCurveCallers(c, "RG.1")
 }
 
 // storesToField: every Store in the module to field `name` of a struct type whose short name ends with owner.
